@@ -12,6 +12,10 @@ def run(ctx):
         # graph requests in every form (traversal text, CQL text and EXECUTE of a prepared statement, all with the graph
         # payload) and prepared statements
         ("random-graph-3x1", ["-random", n(240, 2000), "-kinds", "graph,graph,execute", "-nodes", "3", "-numconns", "1", "-clients", "3", "-workers", "4", "-round", "120", "-okbias", "1", "-nodrops"], False),
+        # the proxy runs with --idempotent-graph: graph requests are idempotent, and nothing else is because a graph request
+        # went over the same connection before
+        ("idempotent-graph-3x1", ["-random", n(240, 2000), "-kinds", "graph,graph,execute,batch", "-nodes", "3", "-numconns", "1", "-clients", "2", "-workers", "4", "-round", "120",
+                                  "-idemgraph", "-okbias", "1", "-nodrops"], False),
         # connections closed by the proxy itself (a node falls silent, the idle timeout passes) with requests outstanding
         ("idle-close-3x1", ["-random", n(160, 1200), "-nodes", "3", "-numconns", "1", "-clients", "3", "-workers", "4", "-round", "80", "-idleclose", "-okbias", "2", "-nodrops"], False),
     ]
